@@ -22,12 +22,22 @@
 (*                   task of the framework                                  *)
 (*  ReconcileUpdate(t)   the UPDATE event reaches taskman's MessageChannel *)
 (*  KillOnReconcile(t)   manager.go handleMessage: REASON_RECONCILIATION   *)
-(*                   and non-terminal => KILL call                          *)
+(*                   and non-terminal => KILL call sent (its outcome is    *)
+(*                   ignored by the code)                                   *)
+(*  KillArrives(t)   the master gets the call: the task dies               *)
+(*  KillLost(t) /    the call has no effect (accepted and lost / refused,   *)
+(*  KillRefused(t)   timed out); a scheduler whose calls get lost is       *)
+(*                   eventually disconnected (owed; after a failed call    *)
+(*                   the HTTP client does it itself), re-subscribes and    *)
+(*                   gets a fresh reconciliation answer                     *)
 (*  RefreshOnReconcile(t)  ... otherwise updateTaskStatus                  *)
-(*  NewEnv, Launch (ACCEPT in scheduler.go resourceOffers), Lock           *)
+(*  NewEnv (with its pre-deployment Cleanup of unlocked tasks), Launch      *)
+(*  (ACCEPT in scheduler.go resourceOffers), Lock                           *)
 (*  (acquireTasks SetParent), RosterAppend (acquireTasks roster.append),   *)
 (*  TaskRunning, ConfigureSend/Done, StartSend/Done, Release (teardown     *)
-(*  releaseTasks), RosterRemove + KillSend (doKillTasks), EnvError         *)
+(*  releaseTasks), doKillTasks: RosterRemove - or RosterRead then          *)
+(*  RosterWrite, the roster being re-written from a filtered copy under    *)
+(*  two separate acquisitions of its lock - then KillSend; EnvError        *)
 (*  Crash            SIGKILL of the core at any point                       *)
 (*  DropConnection   the master closes the event stream                    *)
 (*                                                                         *)
@@ -36,11 +46,14 @@
 (*     reconciliation update without consulting the roster                  *)
 (*  Code_ReconcileUnawareOfLaunching a task accepted by Mesos but not yet  *)
 (*     written to the roster by acquireTasks is unknown to handleMessage    *)
+(*  Code_RosterRewriteNotAtomic  doKillTasks takes a filtered copy of the  *)
+(*     roster and writes it back in a second critical section: a roster    *)
+(*     append (acquireTasks of another environment) in between is erased   *)
 (***************************************************************************)
 EXTENDS Naturals, FiniteSets, TLC
 
-CONSTANTS Tasks, Envs, MaxCrash, MaxDrop,
-          Code_ReconcileKillIgnoresRoster, Code_ReconcileUnawareOfLaunching
+CONSTANTS Tasks, Envs, MaxCrash, MaxDrop, MaxLost,
+          Code_ReconcileKillIgnoresRoster, Code_ReconcileUnawareOfLaunching, Code_RosterRewriteNotAtomic
 
 NoEnv == "-"
 ASSUME NoEnv \notin Envs
@@ -63,16 +76,20 @@ VARIABLES
   env,       \* core: env -> phase
   etasks,    \* core: env -> its tasks
   rcv,       \* core: reconciliation updates queued in taskman's MessageChannel
+  snap,      \* core: env -> the filtered copy of the roster its teardown is about to write back
+  kq,        \* KILL calls of a reconciliation on their way to the master
+  owed,      \* a call was lost since the last subscription: the link is bad, a disconnection is due
   killed,    \* history: <<task, why>> of every KILL call
-  crashes, drops
+  crashes, drops, lost
 
 mvars == <<mfw, mstream, mt, rq>>
-cvars == <<up, life, cfid, conn, sfid, nsubl, roster, lock, pend, env, etasks, rcv>>
-vars == <<store, mvars, cvars, killed, crashes, drops>>
+cvars == <<up, life, cfid, conn, sfid, nsubl, roster, lock, pend, env, etasks, rcv, snap>>
+kvars == <<kq, owed, lost>>
+vars == <<store, mvars, cvars, kvars, killed, crashes, drops>>
 
 Phases == {"none", "deploying", "launched", "locked", "deployed", "configuring", "configured", "starting",
-           "running", "releasing", "killing", "done", "error"}
-Transient == {"deploying", "launched", "locked", "deployed", "configuring", "starting", "releasing", "killing"}
+           "running", "releasing", "rewriting", "killing", "done", "error"}
+Transient == {"deploying", "launched", "locked", "deployed", "configuring", "starting", "releasing", "rewriting", "killing"}
 
 Alive(t) == mt[t].st \in {"staging", "running"}
 Launching == UNION {pend[e] : e \in Envs}
@@ -91,18 +108,21 @@ TypeOK ==
   /\ lock \in [Tasks -> Envs \cup {NoEnv}]
   /\ pend \in [Envs -> SUBSET Tasks] /\ etasks \in [Envs -> SUBSET Tasks]
   /\ env \in [Envs -> Phases]
+  /\ snap \in [Envs -> SUBSET Tasks] /\ kq \subseteq Tasks /\ owed \in BOOLEAN
   /\ killed \subseteq (Tasks \X {"reconcile", "teardown"})
-  /\ crashes \in 0..MaxCrash /\ drops \in 0..MaxDrop
+  /\ crashes \in 0..MaxCrash /\ drops \in 0..MaxDrop /\ lost \in 0..MaxLost
 
 CoreFresh ==
   /\ conn' = "down" /\ sfid' = 0 /\ nsubl' = 0 /\ roster' = {} /\ lock' = [t \in Tasks |-> NoEnv]
   /\ pend' = [e \in Envs |-> {}] /\ env' = [e \in Envs |-> "none"] /\ etasks' = [e \in Envs |-> {}] /\ rcv' = {}
+  /\ snap' = [e \in Envs |-> {}]
 
 Init ==
   /\ store = 0 /\ mfw = 0 /\ mstream = 0 /\ mt = [t \in Tasks |-> [st |-> "none", fw |-> 0]] /\ rq = {}
   /\ up = FALSE /\ life = 0 /\ cfid = 0 /\ conn = "down" /\ sfid = 0 /\ nsubl = 0 /\ roster = {}
   /\ lock = [t \in Tasks |-> NoEnv] /\ pend = [e \in Envs |-> {}] /\ env = [e \in Envs |-> "none"]
-  /\ etasks = [e \in Envs |-> {}] /\ rcv = {} /\ killed = {} /\ crashes = 0 /\ drops = 0
+  /\ etasks = [e \in Envs |-> {}] /\ rcv = {} /\ snap = [e \in Envs |-> {}] /\ kq = {} /\ owed = FALSE
+  /\ killed = {} /\ crashes = 0 /\ drops = 0 /\ lost = 0
 
 ---------------------------------------------------------------------------
 \* process life, subscription, reconciliation
@@ -110,12 +130,12 @@ Init ==
 CoreStart ==
   /\ ~up
   /\ up' = TRUE /\ life' = life + 1 /\ cfid' = store /\ CoreFresh
-  /\ UNCHANGED <<store, mvars, killed, crashes, drops>>
+  /\ UNCHANGED <<store, mvars, kvars, killed, crashes, drops>>
 
 SubscribeBody ==
   /\ up /\ conn = "down"
   /\ conn' = "subscribing" /\ sfid' = cfid /\ nsubl' = nsubl + 1
-  /\ UNCHANGED <<store, mvars, up, life, cfid, roster, lock, pend, env, etasks, rcv, killed, crashes, drops>>
+  /\ UNCHANGED <<store, mvars, up, life, cfid, roster, lock, pend, env, etasks, rcv, snap, kvars, killed, crashes, drops>>
 Subscribe == nsubl = 0 /\ SubscribeBody
 Resubscribe == nsubl > 0 /\ SubscribeBody
 
@@ -124,26 +144,26 @@ Subscribed(id) ==
   /\ id = (IF sfid = 0 THEN mfw + 1 ELSE sfid)
   /\ mfw' = (IF sfid = 0 THEN mfw + 1 ELSE mfw)
   /\ mstream' = id /\ sfid' = id /\ conn' = "subd" /\ rq' = {}
-  /\ UNCHANGED <<store, mt, up, life, cfid, nsubl, roster, lock, pend, env, etasks, rcv, killed, crashes, drops>>
+  /\ UNCHANGED <<store, mt, up, life, cfid, nsubl, roster, lock, pend, env, etasks, rcv, snap, kvars, killed, crashes, drops>>
 
 StoreFid ==
   /\ up /\ conn = "subd"
   /\ IF cfid # sfid THEN cfid' = sfid /\ store' = sfid ELSE UNCHANGED <<cfid, store>>
   /\ conn' = "stored"
-  /\ UNCHANGED <<mvars, up, life, sfid, nsubl, roster, lock, pend, env, etasks, rcv, killed, crashes, drops>>
+  /\ UNCHANGED <<mvars, up, life, sfid, nsubl, roster, lock, pend, env, etasks, rcv, snap, kvars, killed, crashes, drops>>
 
 Reconcile ==
   /\ up /\ conn = "stored"
   /\ rq' = (IF mstream = cfid THEN {t \in Tasks : Alive(t) /\ mt[t].fw = cfid} ELSE {})
   /\ conn' = "up"
-  /\ UNCHANGED <<store, mfw, mstream, mt, up, life, cfid, sfid, nsubl, roster, lock, pend, env, etasks, rcv,
-                 killed, crashes, drops>>
+  /\ UNCHANGED <<store, mfw, mstream, mt, up, life, cfid, sfid, nsubl, roster, lock, pend, env, etasks, rcv, snap,
+                 kvars, killed, crashes, drops>>
 
 ReconcileUpdate(t) ==
   /\ up /\ conn = "up" /\ t \in rq
   /\ rq' = rq \ {t} /\ rcv' = rcv \cup {t}
-  /\ UNCHANGED <<store, mfw, mstream, mt, up, life, cfid, conn, sfid, nsubl, roster, lock, pend, env, etasks,
-                 killed, crashes, drops>>
+  /\ UNCHANGED <<store, mfw, mstream, mt, up, life, cfid, conn, sfid, nsubl, roster, lock, pend, env, etasks, snap,
+                 kvars, killed, crashes, drops>>
 
 KillCond(t) ==
   \/ Code_ReconcileKillIgnoresRoster
@@ -151,27 +171,47 @@ KillCond(t) ==
 
 KillOnReconcile(t) ==
   /\ up /\ t \in rcv /\ KillCond(t)
-  /\ rcv' = rcv \ {t}
-  /\ mt' = [mt EXCEPT ![t].st = IF Alive(t) THEN "dead" ELSE @]
+  /\ rcv' = rcv \ {t} /\ kq' = kq \cup {t}
   /\ killed' = killed \cup {<<t, "reconcile">>}
-  /\ UNCHANGED <<store, mfw, mstream, rq, up, life, cfid, conn, sfid, nsubl, roster, lock, pend, env, etasks,
+  /\ UNCHANGED <<store, mvars, up, life, cfid, conn, sfid, nsubl, roster, lock, pend, env, etasks, snap, owed, lost,
                  crashes, drops>>
+
+KillArrives(t) ==
+  /\ t \in kq
+  /\ kq' = kq \ {t}
+  /\ mt' = [mt EXCEPT ![t].st = IF Alive(t) THEN "dead" ELSE @]
+  /\ UNCHANGED <<store, mfw, mstream, rq, cvars, owed, lost, killed, crashes, drops>>
+
+\* the call is accepted and gets lost behind the master's door: nobody notices
+KillLost(t) ==
+  /\ up /\ t \in kq /\ lost < MaxLost
+  /\ kq' = kq \ {t} /\ lost' = lost + 1 /\ owed' = TRUE
+  /\ UNCHANGED <<store, mvars, cvars, killed, crashes, drops>>
+\* the call fails (HTTP error, timeout): handleMessage ignores that, but the HTTP client (mesos-go httpsched) takes
+\* any failed call for a sign that the master has changed, gives its subscription up and subscribes again
+KillRefused(t) == KillLost(t)
 
 RefreshOnReconcile(t) ==
   /\ up /\ t \in rcv /\ ~KillCond(t)
   /\ rcv' = rcv \ {t}
-  /\ UNCHANGED <<store, mvars, up, life, cfid, conn, sfid, nsubl, roster, lock, pend, env, etasks, killed,
+  /\ UNCHANGED <<store, mvars, up, life, cfid, conn, sfid, nsubl, roster, lock, pend, env, etasks, snap, kvars, killed,
                  crashes, drops>>
 
 ---------------------------------------------------------------------------
 \* life of an environment (abstracted)
 
 SetEnv(e, ph) == env' = [env EXCEPT ![e] = ph]
-CoreSame == UNCHANGED <<up, life, cfid, conn, sfid, nsubl>>
+CoreSame == UNCHANGED <<up, life, cfid, conn, sfid, nsubl, kvars>>
 
+\* environment/manager.go CreateEnvironment starts with taskman.Cleanup(): every unlocked task of the roster is taken off
+\* it and killed (the released tasks of a teardown that has not got to them yet)
+Unlocked == {t \in roster : lock[t] = NoEnv}
 NewEnv(e) ==
   /\ up /\ env[e] = "none" /\ SetEnv(e, "deploying")
-  /\ CoreSame /\ UNCHANGED <<store, mvars, roster, lock, pend, etasks, rcv, killed, crashes, drops>>
+  /\ roster' = roster \ Unlocked
+  /\ mt' = [t \in Tasks |-> IF t \in Unlocked /\ Alive(t) THEN [mt[t] EXCEPT !.st = "dead"] ELSE mt[t]]
+  /\ killed' = killed \cup {<<t, "teardown">> : t \in {x \in Unlocked : Alive(x)}}
+  /\ CoreSame /\ UNCHANGED <<store, mfw, mstream, rq, lock, pend, etasks, rcv, snap, crashes, drops>>
 
 \* ACCEPT: from now on Mesos knows the tasks (TASK_STAGING)
 Launch(e, T) ==
@@ -179,61 +219,71 @@ Launch(e, T) ==
   /\ T # {} /\ T \subseteq {t \in Tasks : mt[t].st = "none"}
   /\ mt' = [t \in Tasks |-> IF t \in T THEN [st |-> "staging", fw |-> cfid] ELSE mt[t]]
   /\ pend' = [pend EXCEPT ![e] = T] /\ etasks' = [etasks EXCEPT ![e] = T] /\ SetEnv(e, "launched")
-  /\ CoreSame /\ UNCHANGED <<store, mfw, mstream, rq, roster, lock, rcv, killed, crashes, drops>>
+  /\ CoreSame /\ UNCHANGED <<store, mfw, mstream, rq, roster, lock, rcv, snap, killed, crashes, drops>>
 
 Lock(e) ==
   /\ up /\ env[e] = "launched"
   /\ lock' = [t \in Tasks |-> IF t \in pend[e] THEN e ELSE lock[t]] /\ SetEnv(e, "locked")
-  /\ CoreSame /\ UNCHANGED <<store, mvars, roster, pend, etasks, rcv, killed, crashes, drops>>
+  /\ CoreSame /\ UNCHANGED <<store, mvars, roster, pend, etasks, rcv, snap, killed, crashes, drops>>
 
 RosterAppend(e) ==
   /\ up /\ env[e] = "locked"
   /\ roster' = roster \cup pend[e] /\ pend' = [pend EXCEPT ![e] = {}] /\ SetEnv(e, "deployed")
-  /\ CoreSame /\ UNCHANGED <<store, mvars, lock, etasks, rcv, killed, crashes, drops>>
+  /\ CoreSame /\ UNCHANGED <<store, mvars, lock, etasks, rcv, snap, killed, crashes, drops>>
 
 \* the agent reports TASK_RUNNING (whether or not a core listens)
 TaskRunning(t) ==
   /\ mt[t].st = "staging"
   /\ mt' = [mt EXCEPT ![t].st = "running"]
-  /\ UNCHANGED <<store, mfw, mstream, rq, cvars, killed, crashes, drops>>
+  /\ UNCHANGED <<store, mfw, mstream, rq, cvars, kvars, killed, crashes, drops>>
 
 AllRunning(e) == \A t \in etasks[e] : mt[t].st = "running"
 
 ConfigureSend(e) ==
   /\ up /\ conn = "up" /\ env[e] = "deployed" /\ AllRunning(e) /\ SetEnv(e, "configuring")
-  /\ CoreSame /\ UNCHANGED <<store, mvars, roster, lock, pend, etasks, rcv, killed, crashes, drops>>
+  /\ CoreSame /\ UNCHANGED <<store, mvars, roster, lock, pend, etasks, rcv, snap, killed, crashes, drops>>
 ConfigureDone(e) ==
   /\ up /\ conn = "up" /\ env[e] = "configuring" /\ AllRunning(e) /\ SetEnv(e, "configured")
-  /\ CoreSame /\ UNCHANGED <<store, mvars, roster, lock, pend, etasks, rcv, killed, crashes, drops>>
+  /\ CoreSame /\ UNCHANGED <<store, mvars, roster, lock, pend, etasks, rcv, snap, killed, crashes, drops>>
 StartSend(e) ==
   /\ up /\ env[e] = "configured" /\ AllRunning(e) /\ SetEnv(e, "starting")
-  /\ CoreSame /\ UNCHANGED <<store, mvars, roster, lock, pend, etasks, rcv, killed, crashes, drops>>
+  /\ CoreSame /\ UNCHANGED <<store, mvars, roster, lock, pend, etasks, rcv, snap, killed, crashes, drops>>
 StartDone(e) ==
   /\ up /\ conn = "up" /\ env[e] = "starting" /\ AllRunning(e) /\ SetEnv(e, "running")
-  /\ CoreSame /\ UNCHANGED <<store, mvars, roster, lock, pend, etasks, rcv, killed, crashes, drops>>
+  /\ CoreSame /\ UNCHANGED <<store, mvars, roster, lock, pend, etasks, rcv, snap, killed, crashes, drops>>
 
 \* teardown: tasks released (unlocked), removed from the roster, killed
 Release(e) ==
   /\ up /\ env[e] \in {"configured", "error"}
   /\ lock' = [t \in Tasks |-> IF lock[t] = e THEN NoEnv ELSE lock[t]] /\ SetEnv(e, "releasing")
-  /\ CoreSame /\ UNCHANGED <<store, mvars, roster, pend, etasks, rcv, killed, crashes, drops>>
+  /\ CoreSame /\ UNCHANGED <<store, mvars, roster, pend, etasks, rcv, snap, killed, crashes, drops>>
+\* doKillTasks: m.roster.updateTasks(m.roster.filtered(...)) - the filtered copy is taken under the roster's
+\* read lock, written back under its write lock
 RosterRemove(e) ==
-  /\ up /\ env[e] = "releasing"
+  /\ ~Code_RosterRewriteNotAtomic /\ up /\ env[e] = "releasing"
   /\ roster' = roster \ etasks[e] /\ SetEnv(e, "killing")
-  /\ CoreSame /\ UNCHANGED <<store, mvars, lock, pend, etasks, rcv, killed, crashes, drops>>
+  /\ CoreSame /\ UNCHANGED <<store, mvars, lock, pend, etasks, rcv, snap, killed, crashes, drops>>
+RosterRead(e) ==
+  /\ Code_RosterRewriteNotAtomic /\ up /\ env[e] = "releasing"
+  /\ snap' = [snap EXCEPT ![e] = roster \ etasks[e]] /\ SetEnv(e, "rewriting")
+  /\ CoreSame /\ UNCHANGED <<store, mvars, roster, lock, pend, etasks, rcv, killed, crashes, drops>>
+RosterWrite(e) ==
+  /\ up /\ env[e] = "rewriting"
+  /\ roster' = snap[e] /\ SetEnv(e, "killing")
+  /\ CoreSame /\ UNCHANGED <<store, mvars, lock, pend, etasks, rcv, snap, killed, crashes, drops>>
 KillSend(e) ==
   /\ up /\ env[e] = "killing"
   /\ mt' = [t \in Tasks |-> IF t \in etasks[e] /\ Alive(t) THEN [mt[t] EXCEPT !.st = "dead"] ELSE mt[t]]
   /\ killed' = killed \cup {<<t, "teardown">> : t \in {x \in etasks[e] : Alive(x)}}
   /\ SetEnv(e, "done")
-  /\ CoreSame /\ UNCHANGED <<store, mfw, mstream, rq, roster, lock, pend, etasks, rcv, crashes, drops>>
+  /\ CoreSame /\ UNCHANGED <<store, mfw, mstream, rq, roster, lock, pend, etasks, rcv, snap, crashes, drops>>
 
 \* a task of a live environment died: the environment ends in ERROR (or fails to be created)
 EnvError(e) ==
   /\ up /\ env[e] \in {"launched", "locked", "deployed", "configuring", "configured", "starting", "running"}
   /\ \E t \in etasks[e] : mt[t].st = "dead"
   /\ SetEnv(e, "error")
-  /\ CoreSame /\ UNCHANGED <<store, mvars, roster, lock, pend, etasks, rcv, killed, crashes, drops>>
+  /\ CoreSame /\ UNCHANGED <<store, mvars, roster, lock, pend, etasks, rcv, snap, killed, crashes, drops>>
 
 ---------------------------------------------------------------------------
 \* faults
@@ -241,23 +291,25 @@ EnvError(e) ==
 Crash ==
   /\ up /\ crashes < MaxCrash
   /\ up' = FALSE /\ cfid' = 0 /\ CoreFresh /\ rq' = {} /\ mstream' = 0 /\ crashes' = crashes + 1
-  /\ UNCHANGED <<store, mfw, mt, life, killed, drops>>
+  /\ kq' = {} /\ owed' = FALSE   \* calls in flight die with the process; the next life reconciles anyway
+  /\ UNCHANGED <<store, mfw, mt, life, killed, drops, lost>>
 
+\* the master closes the event stream: at any time (counted), or because the link has been losing calls (due)
 DropConnection ==
-  /\ up /\ conn = "up" /\ mstream # 0 /\ drops < MaxDrop
-  /\ mstream' = 0 /\ rq' = {} /\ conn' = "down" /\ drops' = drops + 1
-  /\ UNCHANGED <<store, mfw, mt, up, life, cfid, sfid, nsubl, roster, lock, pend, env, etasks, rcv, killed, crashes>>
+  /\ up /\ conn = "up" /\ mstream # 0 /\ (drops < MaxDrop \/ owed)
+  /\ mstream' = 0 /\ rq' = {} /\ conn' = "down" /\ drops' = (IF owed THEN drops ELSE drops + 1) /\ owed' = FALSE
+  /\ UNCHANGED <<store, mfw, mt, up, life, cfid, sfid, nsubl, roster, lock, pend, env, etasks, rcv, snap, kq, lost, killed, crashes>>
 
 ---------------------------------------------------------------------------
 Recovery ==
   \/ CoreStart \/ Subscribe \/ Resubscribe \/ (\E id \in 1..(MaxCrash + 2) : Subscribed(id)) \/ StoreFid \/ Reconcile
-  \/ \E t \in Tasks : ReconcileUpdate(t) \/ KillOnReconcile(t) \/ RefreshOnReconcile(t)
+  \/ \E t \in Tasks : ReconcileUpdate(t) \/ KillOnReconcile(t) \/ RefreshOnReconcile(t) \/ KillArrives(t)
 LifeCycle ==
   \/ \E e \in Envs : \/ NewEnv(e) \/ (\E T \in SUBSET Tasks : Launch(e, T)) \/ Lock(e) \/ RosterAppend(e)
                      \/ ConfigureSend(e) \/ ConfigureDone(e) \/ StartSend(e) \/ StartDone(e)
-                     \/ Release(e) \/ RosterRemove(e) \/ KillSend(e) \/ EnvError(e)
+                     \/ Release(e) \/ RosterRemove(e) \/ RosterRead(e) \/ RosterWrite(e) \/ KillSend(e) \/ EnvError(e)
   \/ \E t \in Tasks : TaskRunning(t)
-Faults == Crash \/ DropConnection
+Faults == Crash \/ DropConnection \/ \E t \in Tasks : KillLost(t) \/ KillRefused(t)
 
 Next == Recovery \/ LifeCycle \/ Faults
 
@@ -265,6 +317,10 @@ Fairness ==
   /\ WF_vars(CoreStart) /\ WF_vars(SubscribeBody) /\ WF_vars(\E id \in 1..(MaxCrash + 2) : Subscribed(id))
   /\ WF_vars(StoreFid) /\ WF_vars(Reconcile)
   /\ \A t \in Tasks : WF_vars(ReconcileUpdate(t)) /\ WF_vars(KillOnReconcile(t)) /\ WF_vars(RefreshOnReconcile(t))
+  \* a KILL call on its way gets through unless it is lost (at most MaxLost are): eventually one gets through
+  /\ \A t \in Tasks : WF_vars(KillArrives(t))
+  \* a scheduler whose calls get lost is eventually disconnected
+  /\ WF_vars(owed /\ DropConnection)
   \* a teardown which has taken its tasks off the roster goes on to send the KILL calls
   /\ \A e \in Envs : WF_vars(KillSend(e))
 
@@ -279,18 +335,28 @@ IdentityStable == [][store # 0 => store' = store]_vars
 \* every task alive at the master runs under the stored identity (so that reconciliation can find it)
 TasksUnderIdentity == \A t \in Tasks : Alive(t) => (store # 0 /\ mt[t].fw = store)
 
-\* a task alive at the master which the current life does not know is eventually killed
-NoOrphans == \A t \in Tasks : (Alive(t) /\ ~Known(t)) ~> ~Alive(t)
+\* a task alive at the master which the current life neither knows nor owns is eventually killed - lost KILL
+\* calls notwithstanding: Mesos reports it again at every subscription and it is killed again
+NoOrphans == \A t \in Tasks : (Alive(t) /\ ~Known(t) /\ ~Owned(t)) ~> ~Alive(t)
 
 \* reconciliation never kills a task owned by an environment of the current life
 NoFriendlyFire == [][\A t \in Tasks : KillOnReconcile(t) => ~Owned(t)]_vars
 
-\* the two ways the tree as found breaks it: the victim is in the roster / is on its way into it
+\* the ways the tree as found breaks it: the victim is in the roster / is on its way into it / was in it and has
+\* been erased from it
 NoFriendlyFireRostered == [][\A t \in Tasks : KillOnReconcile(t) => ~(Owned(t) /\ t \in roster)]_vars
-NoFriendlyFireLaunching == [][\A t \in Tasks : KillOnReconcile(t) => ~(Owned(t) /\ t \notin roster)]_vars
+NoFriendlyFireLaunching ==
+  [][\A t \in Tasks : KillOnReconcile(t) => ~(Owned(t) /\ t \notin roster /\ t \in pend[lock[t]])]_vars
+NoFriendlyFireForgotten ==
+  [][\A t \in Tasks : KillOnReconcile(t) => ~(Owned(t) /\ t \notin roster /\ t \notin pend[lock[t]])]_vars
 
 \* consequence for the environments: none is ever driven to ERROR (the model has no other fault source)
 EnvsStay == \A e \in Envs : env[e] # "error"
+
+\* ownership knowledge is not lost: what a deployment wrote to the roster for its environment stays there as long as
+\* the environment holds it (else a reconciliation answer finds it unknown)
+RosterKeepsOwned ==
+  \A t \in Tasks : (up /\ lock[t] # NoEnv /\ t \notin pend[lock[t]]) => t \in roster
 
 \* the roster only ever holds tasks of the current life, launched under the current identity
 RosterOfThisLife == \A t \in roster : up /\ mt[t].st # "none" /\ mt[t].fw = cfid
